@@ -103,4 +103,23 @@ static inline float FAN_CELL(const struct FAN* self, int i0, int i1, int i2, int
                                                      && *new_ra == NEW_IDX(ra, C20_CA, C20_VA) && *new_rb == NEW_IDX(rb, C20_CA, C20_VA)))
 #define CONTRACT_K_remove_gaps_map GAP_CONTRACT
 #define CONTRACT_K_add_gaps_map GAP_CONTRACT
+
+/* ---- ML update of the geometric / block factors: the element statement of iterate_geo_norm / iterate_block_norm (2D and 3D) ----
+   new factor = (measured >= threshold || measured < 10000 * model) ? measured / model : 0, where 'model' is the model summed
+   over the factor's detector pairs (make_geo_data / make_block_data) and 'measured' the measured data summed likewise.
+   From the property: "for data generated exactly from a model, the model parameters are a fixed point of the ML
+   iterations": data generated from the model with factor f have measured = model * f, so the update must be the ratio
+   measured / model whenever that ratio is an admissible factor (< 10^4) - however small 'measured' is compared to the
+   largest sum - and is never anything but the ratio or 0. The quotient itself is the ghost g_ratio in the kernel proof;
+   the lemma job computes it with the real float division. */
+float g_ratio; /* ghost: the float quotient measured / model of this call */
+#define K_RATIO(m, n) g_ratio
+float g_limit; /* ghost: the float product 10000 * model of this call */
+#define K_LIMIT(n) g_limit
+#define ML_FINITE(x) (!__CPROVER_isnanf(x) && !__CPROVER_isinff(x))
+#define CONTRACT_K_ml_ratio                                                                                           \
+  __CPROVER_requires(ML_FINITE(measured) && ML_FINITE(model) && !__CPROVER_isnanf(threshold) && measured >= 0.F && model > 0.F && threshold >= 0.F && !__CPROVER_isnanf(g_ratio) && g_limit == 10000 * model) \
+  __CPROVER_assigns()                                                                                                  \
+  __CPROVER_ensures(measured < g_limit ==> __CPROVER_return_value == g_ratio)                                       \
+  __CPROVER_ensures(__CPROVER_return_value == g_ratio || __CPROVER_return_value == 0.F)
 #endif
